@@ -68,7 +68,7 @@ PROPERTIES = {
                 + ["cmp8::float_derived_ops", "cmp8::i32f0_vs_f32", "float::check_kind_f32", "float::check_kind_f64"],
         "kani_thorough": _mods("cmp8", [l for l in L9 if l not in ("l0", "l4", "l8")], ["i8_vs_i8", "i8_vs_u8", "u8_vs_u8"])
                 + _mods("cmp8", [f for f in F9 if f != "f4"], ["i8_vs_f32", "u8_vs_f32", "i8_vs_f64", "u8_vs_f64"]),
-        "explanation": "Verus, every Frac symbolic: fixed_cmp_fixed (eq, partial_cmp, lt, le, gt, ge) for all 100 (lhs family, rhs family) pairs, i.e. every "
+        "explanation": "Verus, every Frac symbolic: `Ord::cmp` of the ten families (fixed_cmp_all!), fixed_cmp_fixed (eq, partial_cmp, lt, le, gt, ge) for all 100 (lhs family, rhs family) pairs, i.e. every "
                        "ordered pair of the 507 layouts; fixed_cmp_float for the ten families against f32 and f64 in both directions; fixed_cmp_int "
                        "for the ten families against the twelve integer types in both directions — all against the exact ordering of the values, "
                        "on top of the to_fixed_helper / to_float_kind contracts, which Kani discharges as function contracts (all source types, all "
